@@ -191,8 +191,24 @@ def ctx_tuple(c):
     return (c.prec, c.rounding, c.Emin, c.Emax, c.capitals, c.clamp, tuple(sorted((str(k), bool(v)) for k, v in c.traps.items())))
 
 
+FLAGS = ["Inexact", "Rounded", "Subnormal", "Clamped", "Underflow", "Overflow", "DivisionByZero", "InvalidOperation"]
+
+
+def draw_flags(rng):
+    """Sticky signal flags already raised in the caller's context before the library is called (a
+    long-running process has them set most of the time). A third of the contexts carry some."""
+    if not rng.chance(0.35):
+        return None
+    if rng.chance(0.5):
+        return ["Inexact", "Rounded"]
+    return sorted(f for f in FLAGS if rng.chance(0.4)) or ["Inexact"]
+
+
 def make_ctx(env):
-    return decimal.Context(prec=env["prec"], rounding=getattr(decimal, env["rounding"]))
+    c = decimal.Context(prec=env["prec"], rounding=getattr(decimal, env["rounding"]))
+    for f in env.get("flags") or []:
+        c.flags[getattr(decimal, f)] = True
+    return c
 
 
 # ---------------------------------------------------------------------------------------------
@@ -257,6 +273,9 @@ def gen_ops(rng, n_ops, pool, room, p_invalid):
             ops.append({"op": "cmp", "a": {"cls": a[0], "how": a[1], "s": a[2]}, "b": {"cls": b[0], "how": b[1], "s": b[2]}})
         elif r < 94:
             ops.append({"op": "setctx", "prec": rng.choice(PRECS), "rounding": rng.choice(ROUNDINGS)})
+            fl = draw_flags(rng)
+            if fl:
+                ops[-1]["flags"] = fl
         else:
             # a rejected call placed between probes
             cls = rng.choice(["CVSS2", "CVSS3", "CVSS4"])
@@ -427,6 +446,9 @@ def draw_run(rng, room):
         env = dict(DEFAULT_ENV)
         if sw["env_mode"] == "per_thread":
             env = {"prec": env_rng.choice(PRECS), "rounding": env_rng.choice(ROUNDINGS)}
+            fl = draw_flags(env_rng)
+            if fl:
+                env["flags"] = fl
         actors.append({"env": env, "ops": gen_ops(w, n_ops_each[i], pool, room, sw["p_invalid"])})
     sw["long_history"] = 0
     sw["history_kind"] = None
@@ -918,6 +940,7 @@ class StateEngine(object):
                     "ops": sum(len(a["ops"]) for a in actors), "context_switches": rep["switches"],
                     "fault.ambient_context_nondefault": 1 if nondefault_env else 0,
                     "fault.rejected_call_before_probe": 1 if rejected_before_probe else 0,
+                    "fault.ambient_context_with_sticky_flags_set": 1 if (any(a["env"].get("flags") for a in actors) or any(op.get("flags") for a in actors for op in a["ops"] if op["op"] == "setctx")) else 0,
                     "fault.setctx_between_ops": sum(1 for a in actors for op in a["ops"] if op["op"] == "setctx"),
                     "fault.long_history_before_probe": 1 if any(op.get("noref") for a in actors for op in a["ops"]) else 0,
                     "fault.warm_up_history_before_threads": 1 if warm else 0,
